@@ -1424,6 +1424,9 @@ func (c *Conn) executeQuery(ctx context.Context, qry *Query) *Iter {
 		if len(values) != info.request.actualColCount {
 			return &Iter{err: fmt.Errorf("gocql: expected %d values send got %d", info.request.actualColCount, len(values))}
 		}
+		if len(values) > len(info.request.columns) {
+			return &Iter{err: fmt.Errorf("gocql: prepared statement describes %d of the %d bind values", len(info.request.columns), len(values))}
+		}
 
 		params.values = make([]queryValues, len(values))
 		for i := 0; i < len(values); i++ {
@@ -1629,6 +1632,9 @@ func (c *Conn) executeBatch(ctx context.Context, batch *Batch) *Iter {
 
 			if len(values) != info.request.actualColCount {
 				return &Iter{err: fmt.Errorf("gocql: batch statement %d expected %d values send got %d", i, info.request.actualColCount, len(values))}
+			}
+			if len(values) > len(info.request.columns) {
+				return &Iter{err: fmt.Errorf("gocql: batch statement %d: prepared statement describes %d of the %d bind values", i, len(info.request.columns), len(values))}
 			}
 
 			b.preparedID = info.id
